@@ -97,7 +97,9 @@ func (obj JsonWebEncryption) computeAuthData() []byte {
 	}
 
 	output := []byte(protected)
-	if obj.aad != nil {
+	// Zero-length authenticated data is no authenticated data: it cannot be told apart
+	// from an absent "aad" member once the object has been serialized and parsed.
+	if len(obj.aad) > 0 {
 		output = append(output, '.')
 		output = append(output, []byte(base64URLEncode(obj.aad))...)
 	}
@@ -259,8 +261,11 @@ func (obj JsonWebEncryption) FullSerialize() string {
 		Ciphertext:   newBuffer(obj.ciphertext),
 		EncryptedKey: newBuffer(obj.recipients[0].encryptedKey),
 		Tag:          newBuffer(obj.tag),
-		Aad:          newBuffer(obj.aad),
 		Recipients:   []rawRecipientInfo{},
+	}
+
+	if len(obj.aad) > 0 {
+		raw.Aad = newBuffer(obj.aad)
 	}
 
 	if len(obj.recipients) > 1 {
